@@ -203,7 +203,7 @@ class Interpret {
 
     bool    getAssignment  () const;
 
-    void    reportError(char const * msg) const { notify_formatted(true, msg); }
+    void    reportError(char const * msg) const { notify_formatted(true, "%s", msg); }
 
     PTRef getParsedFormula();
     vec<PTRef>& getAssertions() { return assertions; }
